@@ -28,6 +28,7 @@ site: http://bugseng.com/products/ppl/ . */
 #include <cerrno>
 #include <cstdlib>
 #include <climits>
+#include <limits>
 #include <string>
 
 #if !PPL_HAVE_DECL_STRTOLL
@@ -566,8 +567,15 @@ assign_int_float(To& to, const From from, Rounding_Dir dir) {
              (from < Extended_Int<To_Policy, To>::min))) {
     return set_neg_overflow_int<To_Policy>(to, dir);
   }
+  // When `max' has more significant bits than the mantissa of `From',
+  // the comparison converts it to the next power of 2 (rounding upward
+  // or to nearest): that value too is out of range.
   if (CHECK_P(To_Policy::check_overflow,
-             (from > Extended_Int<To_Policy, To>::max))) {
+             (from > Extended_Int<To_Policy, To>::max
+              || (std::numeric_limits<To>::digits
+                  > std::numeric_limits<From>::digits
+                  && from >= static_cast<From>(Extended_Int<To_Policy, To>
+                                               ::max))))) {
     return set_pos_overflow_int<To_Policy>(to, dir);
   }
 #endif
